@@ -89,6 +89,15 @@ def run_case(case):
     res = Result()
     rng = random.Random(case["seed"])
     d, g0 = random_graph(rng, nmax=14, allow_isolates=rng.random() < 0.15)
+    if rng.random() < 0.15:
+        # vertices without any edge are part of an input graph too (they take part in no clique of size >= 2)
+        base_id = max([v for v in g0.nodes() if isinstance(v, int)], default=0) + 1
+        extra = [base_id + i for i in range(rng.randint(1, 4))]
+        if rng.random() < 0.5:
+            g1 = nx.Graph(); g1.add_nodes_from(extra); g1.add_nodes_from(g0.nodes()); g1.add_edges_from(g0.edges()); g0 = g1     # isolates first
+        else:
+            g0.add_nodes_from(extra)
+        d += "+%d isolated" % len(extra)
     if any(deg == 0 for _, deg in g0.degree()):
         res.count("isolated_vertex_graphs")
     max_size = rng.choice([0, 0, 2, 3, 4, 5])
